@@ -10,7 +10,7 @@ cmd="${1:?cmd}"; name="${2:?name}"; shift 2
 S="/tmp/vs_$name"
 sync_verif() {
   mkdir -p "$S/verif"
-  rsync -a --delete --exclude target --exclude evidence --exclude replays --exclude .git --exclude subject /verif/ "$S/verif/"
+  rsync -rlpD --checksum --delete --exclude target --exclude evidence --exclude replays --exclude .git --exclude subject /verif/ "$S/verif/"
   ln -sfn "$S/repo" "$S/verif/subject"
   mkdir -p "$S/verif/evidence"
   cp /verif/known_findings.json "$S/verif/" 2>/dev/null || true
